@@ -1235,8 +1235,11 @@ def _eval(d):
         }[k]
         o = make()
         cp = vars(type(o))[attr]
+        # the function under the memo: functools.cached_property keeps it as .func; a hand-rolled one (a property whose body
+        # stores into self.__dict__) has none apart from itself, and is read on an instance nobody has read before
+        bare = cp.func if isinstance(cp, functools.cached_property) else cp.fget if isinstance(cp, property) else cp
         first, second = canon(getattr(o, attr)), canon(getattr(o, attr))
-        return [first, second, canon(cp.func(make())), canon(getattr(make(), attr)), attr in vars(o)]
+        return [first, second, canon(bare(make())), canon(getattr(make(), attr)), attr in vars(o)]
     raise common.HarnessError(f"unknown call {d}")
 
 
@@ -1338,42 +1341,78 @@ def _mutable_part(v, depth=0):
     return None
 
 
-def _o_cached_answer_not_aliased(w):
-    """a memo that is PUBLIC API (a cached_property, or an lru_cache'd function without a leading underscore) does not hand
-    its caller the very container it keeps: editing an answer must not change the next one."""
-    row = _inventory()[w["name"]]
-    d = CACHE_COVER[w["name"]][0]
+def _memo_reader(name):
+    """-> (read, through, public): `read()` asks the memo itself for one of its entries; `through()` makes btclib's own calls
+    that go through that same entry; public = the memo is API (a property, or a function without a leading underscore)."""
+    row = _inventory()[name]
+    descs = CACHE_COVER[name]
+    through = lambda: [_eval(d) for d in descs]  # noqa: E731
     if row[1] == "perInstance":
+        d = descs[0]
         make, attr = {"prvkey_pub": (lambda: key_mod.PrvKeyData(d[1], "mainnet", True), "pub"),
                       "pubkey_point": (lambda: key_mod.PubKeyData(bytes.fromhex(d[1])), "point"),
                       "script_asm": (lambda: script_mod.Script(bytes.fromhex(d[1])), "asm")}[d[0]]
         o = make()
-        read = lambda: getattr(o, attr)  # noqa: E731
-        fresh = lambda: getattr(make(), attr)  # noqa: E731
-    else:
-        fn = row[4]
-        args = {"btclib.ecc.pedersen.second_generator": (secp256k1,)}.get(w["name"])
-        if args is None:
-            return False, f"{w['name']}: a public memoised function this oracle has no arguments for"
-        read = fresh = lambda: fn(*args)  # noqa: E731
-    v = read()
-    kind = _mutable_part(v)
-    if kind is None:
-        return True, f"answers a {type(v).__name__} with no mutable part"
-    before = copy.deepcopy(v)
-    if isinstance(v, list):
-        v.append("edited by the caller")
-    elif isinstance(v, dict):
-        v["edited by the caller"] = 1
-    elif isinstance(v, set):
-        v.add("edited by the caller")
-    else:
-        return False, f"{w['name']} answers a {kind} (inside a {type(v).__name__}) that it also keeps"
-    again = read()
-    if again != before:
-        return False, (f"{w['name']} hands out the {kind} it keeps: after the caller edited one answer the next read is "
-                       f"{str(again)[:80]}, a fresh object answers {str(fresh() if row[1] == 'perInstance' else before)[:60]}")
-    return True, f"answers a {kind}, a copy each time"
+        return (lambda: getattr(o, attr)), (lambda: getattr(o, attr)), True
+    if row[1] == "moduleTable":
+        return (lambda: row[4]), through, False
+    ec = CURVES["secp160r1"]
+    args = {
+        "btclib.ecc.pedersen.second_generator": lambda: (ec,),
+        "btclib.bip32.bip32._cached_base58_decode": lambda: (_ACC,),
+        "btclib.curves.curve_group._cached_multiples": lambda: ((*_pt(ec, 7), 1), ec),
+        "btclib.curves.curve_group._cached_multiples_fixwind": lambda: ((*_pt(ec, 7), 1), ec, 4),
+        "btclib.curves.curve_group._cached_odd_multiples_aff": lambda: (ec.GJ, ec, min(cg._FIXED_POINT_W, ec.scalar_len)),  # noqa: SLF001
+        "btclib.curves.curve_group._cached_fixed_base_multiples": lambda: (ec.GJ, ec, curve_mod._FIXED_BASE_W),  # noqa: SLF001
+        "btclib.mnemonic.electrum._old_word_indexes": lambda: (),
+        "btclib.mnemonic.electrum._old_wordlist": lambda: (),
+    }.get(name)
+    if args is None:
+        return None, through, not name.rsplit(".", 1)[1].startswith("_")
+    return (lambda: row[4](*args())), through, not name.rsplit(".", 1)[1].startswith("_")
+
+
+def _o_cached_answer_not_aliased(w):
+    """nobody can change what a memo answers by editing an answer.  For a memo that is public API (a property, a function
+    without a leading underscore): the caller edits the container it was handed and reads again -- the next answer must be
+    the old one (regression for Script.asm, which handed out the list it kept until /repo b68e3481).  For a private memo,
+    whose callers are btclib's own functions: the entry those functions go through (a cache HIT is required, so it is
+    that entry) must be unchanged after they ran -- btclib itself never edits a kept container."""
+    name = w["name"]
+    read, through, public = _memo_reader(name)
+    if read is None:
+        return False, f"{name}: a memo this oracle has no arguments for"
+    with _flag(False):      # the Python arm, where the tables are used
+        row = _inventory()[name]
+        through()
+        hits0 = row[4].cache_info().hits if row[1] in ("lru", "unbounded") else None
+        v = read()
+        if hits0 is not None and row[4].cache_info().hits != hits0 + 1:
+            return False, f"{name}: the entry this oracle reads is not the one btclib's calls {CACHE_COVER[name]} made (no cache hit)"
+        kind = _mutable_part(v)
+        if kind is None:
+            return True, f"answers a {type(v).__name__} with no mutable part"
+        before = copy.deepcopy(v)
+        if not public:
+            through()
+            through()
+            after = read()
+            if after != before:
+                return False, f"{name}: the {kind} it keeps changed while btclib's own calls {CACHE_COVER[name]} ran"
+            return True, f"private; keeps a {kind}; unchanged by btclib's own callers"
+        if isinstance(v, list):
+            v.append("edited by the caller")
+        elif isinstance(v, dict):
+            v["edited by the caller"] = 1
+        elif isinstance(v, set):
+            v.add("edited by the caller")
+        else:
+            return False, f"{name} answers a {kind} (inside a {type(v).__name__}) that it may also keep"
+        again = read()
+        if again != before:
+            return False, (f"{name} hands out the {kind} it keeps: after the caller edited one answer the next read is "
+                           f"{str(again)[:80]}, it was {str(before)[:60]}")
+        return True, f"public; answers a {kind}, its own each time"
 
 
 def _evict(n, kind, heavy=False):
@@ -2130,7 +2169,8 @@ def _run(ctx, rng, thorough):
             balpha = ["T1", "F", "B1", "B2", "U0", "U1", "C1"] + (["D0"] if kinds == "c" else [])
             dk = d if kinds == deep else d - 1
             cases = []
-            for flag0 in (True, False):
+            # quick: the full-depth class starts from one flag value (by seed); a history opening with a flip covers the other
+            for flag0 in ((True, False) if (thorough or kinds != deep) else (ctx.seed // 3 % 2 == 0,)):
                 for ops in _all_histories(balpha, dk):
                     cases.append((f"backend {int(flag0)} {kinds} {';'.join(ops)}", _fmt(_backend_run(flag0, kinds, ops))))
             ctx.correspond(f"backend.all.{KINDS[kinds]}", EXE, cases, nontrivial=lambda ln, o: "C@" in o or "P@" in o)
@@ -2156,12 +2196,12 @@ def _run(ctx, rng, thorough):
         fd = 4 if thorough else 3
         for fn in FREE_FNS:
             cases = []
-            for flag0 in (True, False):
+            for flag0 in ((True, False) if thorough else (ctx.seed % 2 == 0,)):
                 for ops in _all_histories(falpha, fd):
                     cases.append((f"backendfree {int(flag0)} {fn} {';'.join(ops)}", _fmt(_backendfree_run(flag0, fn, ops))))
             ctx.correspond(f"backendfree.all.{fn}", EXE, cases, nontrivial=lambda ln, o: "C" in o[3:] or "P" in o[3:])
         ctx.exhaustive_streams.append(f"backendfree.all.<fn>: for each of {FREE_FNS}, every history of length {fd} over {falpha} "
-                                      "(C1: secp256k1+sha256, C2: secp256k1+sha1, C0: secp256r1), from both flag values")
+                                      "(C1: secp256k1+sha256, C2: secp256k1+sha1, C0: secp256r1), from both flag values (quick: one, by seed)")
         for name, k in sorted(_ENTRY.items()):
             ctx.count("backend.bindings_entry_points_seen", name, k)
         sites = _dispatch_sites()
@@ -2234,13 +2274,13 @@ def _run(ctx, rng, thorough):
     for name, row in sorted(_inventory().items()):
         ctx.check("cache.inventory", {"name": name}, key=f"cache-unaccounted-{name}")
         ctx.count("cache.inventory", f"{row[1]}{'' if row[2] is None else ':' + str(row[2])}{' curve-keyed' if row[3] else ''}")
-        public = row[1] == "perInstance" or (row[1] in ("lru", "unbounded") and not name.rsplit(".", 1)[1].startswith("_"))
-        if public and name in CACHE_COVER:
+        if name in CACHE_COVER:     # every inventoried memo; the oracle itself sorts out which answer mutable containers
             ctx.check("cache.answer_not_aliased", {"name": name}, key=f"cached-answer-aliased-{name}")
     for name in sorted(set(CACHE_COVER) - set(_inventory())):
         ctx.check("cache.inventory", {"name": name}, key=f"cache-unaccounted-{name}")
     ctx.note("memos of btclib are found by introspection of the imported package each run (lru_cache / cache wrappers, "
-             "cached_property, module-level containers a function fills); instance-level lazy state (WordLists, "
+             "cached_property, properties/methods storing into self.__dict__ / vars(self) / object.__setattr__(self, ..), module-level "
+             "containers a function fills); lazy state set on an ARGUMENT by a free function or by plain attribute assignment (WordLists, "
              "SessionContext._values/_bindings_ctx) is not found that way and is covered by name (wordlist model, cold-start oracle)")
     _lap(ctx, "caches")
     for comp, (c1, c2) in sorted(_curve_pairs().items()):
